@@ -221,7 +221,7 @@ pub fn main(args: &Args) -> i32 {
             }
         };
     }
-    let cases = if args.cases > 0 { args.cases } else if args.thorough() { 60000 } else { 4000 };
+    let cases = if args.cases > 0 { args.cases } else if args.thorough() { 80000 } else { 8000 };
     let res = drive(&conflict_defs(), cases, args.seed ^ 0xC08, 600, &mut run, |def, run| check(def, run));
     let code = match res {
         DriveResult::Pass => 0,
